@@ -37,23 +37,45 @@ def run(ctx):
 
     corr_bad, oracle_bad, summary, n_shards = [], [], {}, 0
     cases = os.path.join(ctx.out, "cases")
+    ocases = os.path.join(ctx.out, "oracle")
     ran = False
+    h13 = os.path.join(vlib.HARNESS, "target", "debug", "h13")
     if ok_build:
+        import threading
         vlib.clean_dir(cases)
-        rc, out = vlib.run([os.path.join(vlib.HARNESS, "target", "debug", "h13"), cases, ctx.tier], timeout=3300)
-        ctx.log(out.strip().splitlines()[-1] if out.strip() else "h13: no output")
-        if rc != 0 or not os.path.exists(os.path.join(cases, "summary.json")):
-            ctx.violation("harness h13 failed to run", {"output": out[-3000:], "rc": rc}, found_input=False)
+        vlib.clean_dir(ocases)
+        # phase 1 (seconds): the case shards of the legs ids/reid; they are evaluated in Coq while the oracle runs
+        env = vlib.env_offline()
+        env["H13_LEGS"] = "ids,reid"
+        rc1, out1 = vlib.run([h13, cases, ctx.tier], timeout=900, env=env)
+        shard_res = []
+
+        def eval_shards():
+            shard_res.extend(vlib.run_case_shards(ctx, cases))
+
+        th = None
+        if rc1 == 0 and ok_make:
+            th = threading.Thread(target=eval_shards)
+            th.start()
+        env = vlib.env_offline()
+        env["H13_LEGS"] = "oracle"
+        rc, out = vlib.run([h13, ocases, ctx.tier], timeout=3300, env=env)
+        ctx.log((out1.strip().splitlines() or ["h13 (ids,reid): no output"])[-1])
+        ctx.log((out.strip().splitlines() or ["h13 (oracle): no output"])[-1])
+        if th is not None:
+            th.join()
+        if rc != 0 or rc1 != 0 or not os.path.exists(os.path.join(ocases, "summary.json")) \
+                or not os.path.exists(os.path.join(cases, "summary.json")):
+            ctx.violation("harness h13 failed to run", {"output": (out1 + out)[-3000:], "rc": [rc1, rc]}, found_input=False)
         else:
             ran = True
             summary = json.load(open(os.path.join(cases, "summary.json")))
-            oracle_bad = json.load(open(os.path.join(cases, "oracle_failures.json")))
-            if ok_make:
-                res = vlib.run_case_shards(ctx, cases)
-                n_shards = len(res)
-                for shard, ok, o in res:
-                    if not ok:
-                        corr_bad.append((shard, o[:3000]))
+            summary.update(json.load(open(os.path.join(ocases, "summary.json"))))
+            oracle_bad = json.load(open(os.path.join(ocases, "oracle_failures.json")))
+            n_shards = len(shard_res)
+            for shard, ok, o in shard_res:
+                if not ok:
+                    corr_bad.append((shard, o[:3000]))
     else:
         ctx.violation("harness h13 does not build against /repo's working tree",
                       {"theorem_or_correspondence": "correspondence C13 (h13 build)", "detail": bout[-3000:]},
@@ -90,9 +112,10 @@ def run(ctx):
                        "unknown_axioms": (pr or {}).get("unknown_axioms")}, found_input=False)
 
     samples = []
-    sp = os.path.join(cases, "samples.txt")
-    if os.path.exists(sp):
-        samples = [l for l in open(sp).read().splitlines() if l][:10]
+    for d in (cases, ocases):
+        sp = os.path.join(d, "samples.txt")
+        if os.path.exists(sp):
+            samples += [l[:1200] for l in open(sp).read().splitlines() if l][:6]
     names = [n for n in (pr or {}).get("names", []) if n.startswith("C13_")]
     n_cmp = sum(summary.get(k, 0) for k in ("oracle_diagnostics_compared", "oracle_sierra_compared",
                                              "oracle_tree_offsets_compared"))
